@@ -11,6 +11,8 @@ pub enum Simple {
     Star,
     /// :nth-child(an+b); `text` is the argument as written
     Nth { a: i32, b: i32, text: String },
+    /// ::before (false) / ::after (true), only as the last part of the last compound
+    PseudoEl(bool),
 }
 
 #[derive(Clone, Debug, PartialEq, Eq)]
@@ -45,7 +47,7 @@ impl Selector {
                     Simple::Id(_) => s.0 += 1,
                     Simple::Class(_) | Simple::Nth { .. } => s.1 += 1,
                     Simple::Tag(_) => s.2 += 1,
-                    Simple::Star => {}
+                    Simple::Star | Simple::PseudoEl(_) => {}
                 }
             }
         };
@@ -108,6 +110,12 @@ pub enum DeclKind {
     HeightZero,
     OverflowHidden,
     Unknown(String, String),
+    /// content: "text" (for ::before / ::after rules)
+    Content(String),
+    /// white-space: value
+    WhiteSpace(String),
+    /// a supported property with the value as written (height, max-height, overflow, overflow-y)
+    Raw(String, String),
 }
 
 #[derive(Clone, Debug, PartialEq, Eq)]
@@ -267,6 +275,7 @@ pub fn fmt_compound(c: &Compound) -> String {
                 s.push_str(&css_escape_ident(i))
             }
             Simple::Star => s.push('*'),
+            Simple::PseudoEl(after) => s.push_str(if *after { "::after" } else { "::before" }),
             Simple::Nth { text, .. } => {
                 s.push_str(":nth-child(");
                 s.push_str(text);
@@ -339,6 +348,9 @@ fn fmt_decl(d: &Decl, st: &mut CssStyle) -> String {
         DeclKind::HeightZero => ("height".to_string(), "0".to_string()),
         DeclKind::OverflowHidden => ("overflow".to_string(), "hidden".to_string()),
         DeclKind::Unknown(n, v) => (n.clone(), v.clone()),
+        DeclKind::Content(t) => ("content".to_string(), format!("\"{}\"", t)),
+        DeclKind::WhiteSpace(v) => ("white-space".to_string(), v.clone()),
+        DeclKind::Raw(n, v) => (n.clone(), v.clone()),
     };
     let mut s = prop_name(&name, st);
     st.gap(&mut s, false);
@@ -653,6 +665,47 @@ pub fn gen_colour(rng: &mut Rng) -> (Rgb, ColorForm) {
     }
 }
 
+/// Rules that change the text: generated content on ::before / ::after, white-space,
+/// and the height/overflow forms (zero lengths with units, non-hiding overflow values).
+pub fn gen_text_rules(rng: &mut Rng, v: &Vocab, max_rules: usize) -> Vec<Rule> {
+    let n = rng.range(1, max_rules.max(1));
+    let mut rules = Vec::new();
+    for _ in 0..n {
+        let mut sel = gen_selector(rng, v, 2);
+        let decls = match rng.below(4) {
+            0 | 1 => {
+                let after = rng.chance(1, 2);
+                match sel.rest.last_mut() {
+                    Some((_, c)) => c.0.push(Simple::PseudoEl(after)),
+                    None => sel.first.0.push(Simple::PseudoEl(after)),
+                }
+                let text = *rng.pick(&["<<", ">>", "+", "(x)", "-> ", " :: ", "#", "q q", "/* */", "a;b", "{}", "it's"]);
+                vec![Decl { kind: DeclKind::Content(text.to_string()), important: rng.chance(1, 6) }]
+            }
+            2 => vec![Decl {
+                kind: DeclKind::WhiteSpace(rng.pick(&["pre", "normal", "pre-wrap", "nowrap", "pre-line"]).to_string()),
+                important: rng.chance(1, 6),
+            }],
+            _ => {
+                let h = *rng.pick(&["0", "0px", "0em", "0.0pt", "1px", "auto", "50%", "0in"]);
+                let o = *rng.pick(&["hidden", "visible", "scroll", "auto"]);
+                let hp = *rng.pick(&["height", "max-height"]);
+                let op = *rng.pick(&["overflow", "overflow-y"]);
+                let mut d = vec![
+                    Decl { kind: DeclKind::Raw(hp.to_string(), h.to_string()), important: false },
+                    Decl { kind: DeclKind::Raw(op.to_string(), o.to_string()), important: false },
+                ];
+                if rng.chance(1, 2) {
+                    d.reverse();
+                }
+                d
+            }
+        };
+        rules.push(Rule { selectors: vec![sel], decls });
+    }
+    rules
+}
+
 /// A valid sheet of colour rules (no display / content / white-space).
 pub fn gen_colour_sheet(rng: &mut Rng, v: &Vocab, max_rules: usize) -> Sheet {
     let n = rng.range(1, max_rules.max(1));
@@ -679,7 +732,9 @@ pub fn gen_colour_sheet(rng: &mut Rng, v: &Vocab, max_rules: usize) -> Sheet {
     Sheet(rules)
 }
 
-const SOUP_TOKENS: [&str; 60] = [
+const SOUP_TOKENS: [&str; 74] = [
+    "::before", "::after", "content", "\"x\"", "white-space", "pre", "height", "max-height", "0px", "overflow",
+    "overflow-y", "hidden", "::", "pre-wrap",
     "p", "div", "color", "red", "display", "none", "#", "#abc", "#12", ".", ".c1", ":", ";", "{",
     "}", "(", ")", "[", "]", "\"", "'", "\"str\"", "'a", "\\", "\\41 ", "\\", "@", "@media",
     "@import", "@x", "0", "12345678901", "99999999999999999999", "1.5em", "50%", "-", "--", "-->",
